@@ -106,5 +106,136 @@ theorem la_add_la_spec (hx : LAux nVals h s) (hL : LowInv h s) (hn : ValidNext n
   · intro b hb hz hr; rw [hrow _ _ b hb]
     exact r4 b hz (fun h' => hr ((la_reach_iff hx hpf hn b).mp h'))
 
+theorem la_pf_snoc (hpf : PF h) (hpl : ∀ p, p ∈ e.parents → p < h.length) : PF (h ++ [e]) := by
+  intro i hi p hp
+  rw [List.length_append, List.length_singleton] at hi
+  by_cases hlt : i < h.length
+  · rw [la_ev_append_left _ hlt] at hp; exact hpf i hlt p hp
+  · have : i = h.length := by omega
+    subst this
+    rw [la_ev_snoc_self] at hp
+    exact hpl p hp
+
+/-- I3 is preserved by `add` -/
+theorem la_lowinv_add (hx : LAux nVals h s) (hL : LowInv h s) (hn : ValidNext nVals h e)
+    (hpf : PF h) (hpl : PLen (h ++ [e])) : LowInv (h ++ [e]) (s.add e) := by
+  obtain ⟨q0, q1, q2, q3, q4⟩ := la_add_la_spec hx hL hn hpf hpl
+  obtain ⟨_, _, _, htop⟩ := la_assign_top hx hn
+  have hseq : e.seq ≠ 0 := by have := hn.seq_pos; omega
+  have hpf' : PF (h ++ [e]) := la_pf_snoc hpf hn.parents_lt
+  have hlen : (h ++ [e]).length = h.length + 1 := by simp
+  have hbr : ∀ i, (s.add e).branchOf i = if i = h.length then (s.assignBranch e).2 else s.branchOf i := by
+    intro i; rw [la_add_branchOf, hx.size_eq]
+  have hanc_old : ∀ i b, i < h.length → (Anc (h ++ [e]) i b ↔ Anc h i b) :=
+    fun i b hi => la_anc_append_iff hpf [e] hi
+  have hanc_new := la_anc_new hpf e hn.parents_lt
+  have hanc_to_new : ∀ i, Anc (h ++ [e]) i h.length → i = h.length := by
+    intro i ha
+    have h1 := la_anc_le hpf' ha; have h2 := la_anc_lt_left ha; rw [hlen] at h2; omega
+  generalize (s.assignBranch e).2 = me at q0 q1 q2 q3 q4 htop hbr
+  constructor
+  · intro b br hb hz i hi hbi hanc
+    rw [hlen] at hb hi
+    by_cases hbn : b = h.length
+    · subst hbn
+      have hin := hanc_to_new i hanc; subst hin
+      rw [q0] at hz; rw [hbr, if_pos rfl] at hbi
+      rw [if_pos hbi.symm] at hz; exact hseq hz
+    · have hb' : b < h.length := by omega
+      by_cases hbrme : br = me
+      · subst hbrme
+        have hz0 : (s.la.get b).get br = 0 := by
+          by_cases h0 : (s.la.get b).get br = 0
+          · exact h0
+          · rw [q2 b hb' h0] at hz; exact absurd hz h0
+        have hnr : ¬ ∃ p, p ∈ e.parents ∧ Anc h p b := fun hr => by
+          rw [q3 b hb' hz0 hr] at hz; exact hseq hz
+        by_cases hin : i = h.length
+        · subst hin
+          rcases (hanc_new b).mp hanc with h1 | h1
+          · exact hbn h1
+          · exact hnr h1
+        · have hi' : i < h.length := by omega
+          rw [hbr, if_neg hin] at hbi
+          exact hL.zero b br hb' hz0 i hi' hbi ((hanc_old i b hi').mp hanc)
+      · rw [q1 b br hb' hbrme] at hz
+        by_cases hin : i = h.length
+        · subst hin; rw [hbr, if_pos rfl] at hbi; exact hbrme hbi.symm
+        · have hi' : i < h.length := by omega
+          rw [hbr, if_neg hin] at hbi
+          exact hL.zero b br hb' hz i hi' hbi ((hanc_old i b hi').mp hanc)
+  · intro b br hb hnz
+    rw [hlen] at hb
+    by_cases hbn : b = h.length
+    · subst hbn
+      rw [q0] at hnz ⊢
+      have hbrme : br = me := by
+        by_cases hc : br = me
+        · exact hc
+        · rw [if_neg hc] at hnz; exact absurd rfl hnz
+      subst hbrme
+      rw [if_pos rfl]
+      refine ⟨⟨h.length, by omega, by rw [hbr, if_pos rfl], Anc.refl (by omega), by rw [la_ev_snoc_self]⟩, ?_⟩
+      intro i _ _ hanc
+      have := hanc_to_new i hanc; subst this
+      rw [la_ev_snoc_self]; exact Nat.le_refl _
+    · have hb' : b < h.length := by omega
+      by_cases hbrme : br = me
+      · subst hbrme
+        by_cases h0 : (s.la.get b).get br = 0
+        · have hr : ∃ p, p ∈ e.parents ∧ Anc h p b := by
+            by_cases hc : ∃ p, p ∈ e.parents ∧ Anc h p b
+            · exact hc
+            · exact absurd (q4 b hb' h0 hc) hnz
+          rw [q3 b hb' h0 hr]
+          refine ⟨⟨h.length, by omega, by rw [hbr, if_pos rfl], (hanc_new b).mpr (Or.inr hr),
+            by rw [la_ev_snoc_self]⟩, ?_⟩
+          intro i hi hbi hanc
+          rw [hlen] at hi
+          by_cases hin : i = h.length
+          · subst hin; rw [la_ev_snoc_self]; exact Nat.le_refl _
+          · exfalso
+            have hi' : i < h.length := by omega
+            rw [hbr, if_neg hin] at hbi
+            exact hL.zero b br hb' h0 i hi' hbi ((hanc_old i b hi').mp hanc)
+        · rw [q2 b hb' h0]
+          obtain ⟨⟨i0, hi0, hb0, ha0, hs0⟩, hmin⟩ := hL.least b br hb' h0
+          refine ⟨⟨i0, by omega, by rw [hbr, if_neg (by omega)]; exact hb0, la_anc_append _ ha0,
+            by rw [la_ev_append_left _ hi0]; exact hs0⟩, ?_⟩
+          intro i hi hbi hanc
+          rw [hlen] at hi
+          by_cases hin : i = h.length
+          · subst hin; rw [la_ev_snoc_self, ← hs0]; exact htop i0 hi0 hb0
+          · have hi' : i < h.length := by omega
+            rw [hbr, if_neg hin] at hbi
+            rw [la_ev_append_left _ hi']
+            exact hmin i hi' hbi ((hanc_old i b hi').mp hanc)
+      · rw [q1 b br hb' hbrme] at hnz ⊢
+        obtain ⟨⟨i0, hi0, hb0, ha0, hs0⟩, hmin⟩ := hL.least b br hb' hnz
+        refine ⟨⟨i0, by omega, by rw [hbr, if_neg (by omega)]; exact hb0, la_anc_append _ ha0,
+          by rw [la_ev_append_left _ hi0]; exact hs0⟩, ?_⟩
+        intro i hi hbi hanc
+        rw [hlen] at hi
+        by_cases hin : i = h.length
+        · subst hin; rw [hbr, if_pos rfl] at hbi; exact absurd hbi.symm hbrme
+        · have hi' : i < h.length := by omega
+          rw [hbr, if_neg hin] at hbi
+          rw [la_ev_append_left _ hi']
+          exact hmin i hi' hbi ((hanc_old i b hi').mp hanc)
+
 end Add
+
+theorem la_lowinv_init (nVals : Nat) : LowInv [] (VState.init nVals) where
+  zero := fun b br hb => by simp at hb
+  least := fun b br hb => by simp at hb
+
+/-- I3 holds after indexing any valid history with short parent lists -/
+theorem la_lowinv_run {nVals : Nat} {h : Hist} (hv : Valid nVals h) (hpl : PLen h) :
+    LowInv h (run nVals h) := by
+  induction hv with
+  | nil => exact la_lowinv_init nVals
+  | @snoc h e hv' hn ih =>
+    rw [la_run_snoc]
+    exact la_lowinv_add (la_aux_run hv') (ih (la_plen_prefix hpl)) hn (la_valid_pf hv') hpl
+
 end VecProofs
